@@ -1,7 +1,487 @@
-(* C05 - web bundles; placeholder until the proofs land. *)
-From WP Require Import Base.Prelude Model.Bundle.
+(* C05 - the web-bundle reader (go/bundle/decoder.go, version/version.go).
+
+   "For every input byte string the bundle reader either rejects it or returns
+   exchanges whose URL, status, headers and body are exactly the bytes found at
+   in-bounds locations of that input, as an independent parser of the format
+   extracts them; it never reads past the end of the input, never fabricates
+   content, and steps over unknown sections without losing its place.  Any
+   index entry or section length that points outside the file, overflows 64-bit
+   arithmetic or disagrees with the section table is rejected with an error."
+
+   Statements only; proofs live in Proofs/BundleRead{Base,Total,Layout,Bounds,
+   Response,Sound,Reject,Unique}.v.  Model = Model/Bundle.v (b_read = bundle.Read,
+   load_metadata = loadMetadata, load_response = loadResponse; uint64
+   arithmetic as explicit w64, slice expressions as splitN with None = panic,
+   loops with fuel).  The independent side is Spec/BundleRead.v (Extracts,
+   SectionLayout, IndexLocations, ResponseAt, ...: relations between the input
+   and what a parser of the draft's CDDL finds in it, all arithmetic in N
+   without wrap) on top of Spec/Cbor.v (shead).
+
+   Reading notes.
+   - Every theorem is for an arbitrary input [bs : bytes] and an arbitrary
+     oracle [x509_ok].  No "elements are bytes" (wfb) hypothesis is needed.
+   - The one side condition is [lenN bs < two64]: a Go slice is shorter than
+     2^63, while the model's input is an unbounded list.  It cannot be
+     dropped: on a (physically impossible) list longer than 2^64 a section
+     length of 2^64-1 would pass the in-file check and wrap the model's
+     uint64 offset.
+   - [load_header] / [load_body] (Proofs/BundleReadLayout.v) split
+     load_metadata into "everything before the first section" and "the checks
+     on the table plus the section loop"; [load_metadata_split] is that
+     equation.  [handle_section] is the body of the loop's switch statement.
+   - Leniencies of the reader that the reference shares (see Spec/BundleRead.v
+     and the examples at the end): non-shortest CBOR heads, bytes after the
+     items inside the section-lengths string / the index section / the header
+     string of a response, an odd count in the section-lengths array head.
+   - Also serves C10 for this package: read_no_panic, read_terminates. *)
+From Coq Require Import Lia.
+From WP Require Import Base.Prelude Model.Cbor Model.Http Model.CertChain Model.Bundle
+  Spec.Cbor Spec.BundleRead.
+From WP Require Import Proofs.BaseLemmas Proofs.CborDecode
+  Proofs.BundleReadBase Proofs.BundleReadTotal Proofs.BundleReadLayout Proofs.BundleReadBounds
+  Proofs.BundleReadResponse Proofs.BundleReadSound Proofs.BundleReadReject
+  Proofs.BundleReadUnique.
 Open Scope N_scope.
 
-Theorem c05_smoke : parse_magic (header_magic_bytes BV2 ++ [1]) = Ok (BV2, [1]).
-Proof. reflexivity. Qed.
-Print Assumptions c05_smoke.
+(* ==== the reader is total ============================================================ *)
+Theorem read_no_panic : forall (x509_ok : bytes -> bool) (bs : bytes),
+  lenN bs < two64 -> b_read x509_ok bs <> Panic.
+Proof. exact BundleReadBounds.read_no_panic. Qed.
+Print Assumptions read_no_panic.
+
+Theorem read_terminates : forall (x509_ok : bytes -> bool) (bs : bytes),
+  lenN bs < two64 -> b_read x509_ok bs <> Fuel.
+Proof. exact BundleReadBounds.read_terminates. Qed.
+Print Assumptions read_terminates.
+
+(* the loops on their own: the fuel the model hands them (one more than the
+   number of remaining input bytes) always suffices, for every count up to
+   2^64-1, because each iteration consumes at least one byte or returns *)
+Theorem loops_terminate : forall (x509_ok : bytes -> bool) (bs : bytes),
+  ok_or_err (decode_section_lengths bs) /\
+  (forall n h ps, ok_or_err (dec_cbor_headers (S (List.length bs)) n bs h ps)) /\
+  (forall v n rl ro acc t, ok_or_err (parse_index (S (List.length bs)) v n bs rl ro acc t)) /\
+  (forall k u rl ro acc, ok_or_err (read_locs (S (N.to_nat k)) k bs u rl ro acc)) /\
+  ok_or_err (parse_signatures x509_ok bs) /\
+  ok_or_err (decode_augcert x509_ok bs) /\
+  ok_or_err (Model.Variants.parse_list_of_string_lists bs) /\
+  ok_or_err (load_response bs).
+Proof.
+  intros x509_ok bs.
+  split; [apply decode_section_lengths_total|].
+  split; [intros; apply dec_cbor_headers_total; lia|].
+  split; [intros; apply parse_index_total; lia|].
+  split; [intros; apply read_locs_total; lia|].
+  split; [apply parse_signatures_total|].
+  split; [apply decode_augcert_total|].
+  split; [apply parse_list_of_string_lists_total|apply load_response_total].
+Qed.
+Print Assumptions loops_terminate.
+
+(* ==== the section table ================================================================ *)
+(* the pre-check of loadMetadata = "every section ends inside the file", in N *)
+Theorem sections_fit_spec : forall (sos : list (bytes * N)) (e total : N),
+  e <= total -> (sections_fit sos e total = true <-> e + sum_lens sos <= total).
+Proof. exact BundleReadBase.sections_fit_spec. Qed.
+Print Assumptions sections_fit_spec.
+
+(* FindSection's uint64 offset = the unwrapped span of the spec *)
+Theorem find_section_spec : forall sos name,
+  sum_lens sos < two64 ->
+  find_section sos name =
+  match section_span sos name with Some (o, l) => Some (l, o) | None => None end.
+Proof. exact BundleReadBase.find_section_spec. Qed.
+Print Assumptions find_section_spec.
+
+Theorem section_span_spec : forall sos name off len,
+  section_span sos name = Some (off, len) <-> SectionSpan sos name off len.
+Proof. exact BundleReadBase.section_span_spec. Qed.
+Print Assumptions section_span_spec.
+
+(* "steps over unknown sections without losing its place": having passed the
+   sections [passed] (known or not), the loop continues with the remaining ones
+   at offset + the sum of ALL their lengths *)
+Theorem load_sections_offset_invariant : forall x509_ok v bs all ss passed rest offset m,
+  ~ In sec_responses (map fst passed) ->
+  offset + sum_lens passed < two64 ->
+  load_sections x509_ok v bs all (passed ++ rest) offset ss m =
+  let* m1 := load_sections x509_ok v bs all passed offset ss m in
+  load_sections x509_ok v bs all rest (offset + sum_lens passed) ss m1.
+Proof. exact BundleReadLayout.load_sections_offset_invariant. Qed.
+Print Assumptions load_sections_offset_invariant.
+
+(* with the section inside the file, w64 (offset + len) = offset + len, the
+   slice bs[offset:offset+len] is in range (no panic) and is exactly the len
+   bytes found at offset *)
+Theorem load_sections_slice_in_range : forall x509_ok v (bs : bytes) all name len t offset ss m,
+  known_section name = true -> bytes_eqb name sec_responses = false ->
+  offset + len <= lenN bs -> lenN bs < two64 ->
+  exists pre contents post,
+    bs = pre ++ contents ++ post /\ lenN pre = offset /\ lenN contents = len /\
+    load_sections x509_ok v bs all ((name, len) :: t) offset ss m =
+    if lenN bs <=? offset + len then Err
+    else let* m' := handle_section x509_ok v all ss name contents m in
+         load_sections x509_ok v bs all t (offset + len) ss m'.
+Proof. exact BundleReadLayout.load_sections_known. Qed.
+Print Assumptions load_sections_slice_in_range.
+
+Theorem load_metadata_split : forall x509_ok bs,
+  load_metadata x509_ok bs =
+  let* (v, fallback, taint0, ss, sos) := load_header bs in
+  load_body x509_ok bs v fallback taint0 ss sos.
+Proof. exact BundleReadLayout.load_metadata_split. Qed.
+Print Assumptions load_metadata_split.
+
+(* ==== makeRelativeToStream =============================================================== *)
+Theorem make_relative_spec : forall rl ro o l o' l',
+  make_relative rl ro o l = Ok (o', l') <-> (o + l <= rl /\ o' = w64 (ro + o) /\ l' = l).
+Proof. exact BundleReadBase.make_relative_spec. Qed.
+Print Assumptions make_relative_spec.
+
+Theorem make_relative_in_section : forall total rl ro o l o' l',
+  ro + rl <= total -> total < two64 ->
+  make_relative rl ro o l = Ok (o', l') ->
+  o' = ro + o /\ l' = l /\ ro <= o' /\ o' + l' <= ro + rl /\ o + l <= rl.
+Proof. exact BundleReadBase.make_relative_in_section. Qed.
+Print Assumptions make_relative_in_section.
+
+(* ==== never reads past the end of the input ================================================= *)
+(* every location Read is going to dereference lies in the responses section,
+   which lies in the file; N arithmetic, nothing wraps *)
+Theorem read_locations_in_bounds : forall x509_ok (bs : bytes) v m,
+  lenN bs < two64 -> load_metadata x509_ok bs = Ok (v, m) ->
+  exists resp_start resp_len,
+    resp_start + resp_len <= lenN bs /\
+    Forall (fun l => resp_start <= l_off l /\ l_off l + l_len l <= resp_start + resp_len)
+           (m_locs m).
+Proof. exact BundleReadBounds.load_metadata_in_bounds. Qed.
+Print Assumptions read_locations_in_bounds.
+
+(* the same with the responses section tied to the section table: it is the
+   last entry, at sections_start + (sum of all other lengths) *)
+Theorem read_locations_in_bounds_layout : forall x509_ok (bs : bytes) v m,
+  lenN bs < two64 -> load_metadata x509_ok bs = Ok (v, m) ->
+  exists fb t0 ss sos before resp_len,
+    load_header bs = Ok (v, fb, t0, ss, sos) /\
+    sos = before ++ [(sec_responses, resp_len)] /\
+    section_span sos sec_responses = Some (sum_lens before, resp_len) /\
+    ss + sum_lens sos <= lenN bs /\
+    Forall (in_bounds (ss + sum_lens before) resp_len) (m_locs m).
+Proof. exact BundleReadBounds.load_metadata_in_bounds_layout. Qed.
+Print Assumptions read_locations_in_bounds_layout.
+
+(* and then the slice bs[Offset:Offset+Length] is exactly those bytes *)
+Theorem read_slice_in_range : forall (bs : bytes) l t acc,
+  l_off l + l_len l <= lenN bs -> lenN bs < two64 ->
+  exists item,
+    sub_at bs (l_off l) (l_len l) item /\
+    load_all bs (l :: t) acc =
+    let* (st, h, body) := load_response item in
+    load_all bs t ({| bx_url := l_url l; bx_status := st; bx_hdr := h; bx_body := body |} :: acc).
+Proof. exact BundleReadBounds.load_all_step. Qed.
+Print Assumptions read_slice_in_range.
+
+(* ==== one response =========================================================================== *)
+Theorem load_response_sound : forall item st h body,
+  load_response item = Ok (st, h, body) -> ResponseItem item st h body.
+Proof. exact BundleReadResponse.load_response_sound. Qed.
+Print Assumptions load_response_sound.
+
+(* ==== the main statement ======================================================================= *)
+Theorem read_sound : forall x509_ok (bs : bytes) (b : bundle),
+  lenN bs < two64 -> b_read x509_ok bs = Ok b -> Extracts bs b.
+Proof. exact BundleReadSound.read_sound. Qed.
+Print Assumptions read_sound.
+
+Theorem read_bodies_in_input : forall x509_ok (bs : bytes) (b : bundle),
+  lenN bs < two64 -> b_read x509_ok bs = Ok b ->
+  Forall (fun x => exists pre post, bs = pre ++ bx_body x ++ post) (b_exchanges b).
+Proof. exact BundleReadSound.read_bodies_in_input. Qed.
+Print Assumptions read_bodies_in_input.
+
+(* the reference is functional: the file determines version and exchanges, so
+   read_sound says the reader returns THE exchanges an independent parser finds *)
+Theorem extracts_functional : forall (bs : bytes) (b b' : bundle),
+  Extracts bs b -> Extracts bs b' ->
+  b_ver b = b_ver b' /\ b_exchanges b = b_exchanges b'.
+Proof. exact BundleReadUnique.Extracts_fun. Qed.
+Print Assumptions extracts_functional.
+
+Theorem read_is_the_extraction : forall x509_ok (bs : bytes) (b b' : bundle),
+  lenN bs < two64 -> b_read x509_ok bs = Ok b -> Extracts bs b' ->
+  b_ver b = b_ver b' /\ b_exchanges b = b_exchanges b'.
+Proof.
+  intros x509_ok bs b b' Hlen Hr He.
+  exact (BundleReadUnique.Extracts_fun bs b b' (BundleReadSound.read_sound x509_ok bs b Hlen Hr) He).
+Qed.
+Print Assumptions read_is_the_extraction.
+
+(* ==== rejections ================================================================================ *)
+Theorem rejects_out_of_file : forall x509_ok (bs : bytes) v fb t0 ss sos,
+  load_header bs = Ok (v, fb, t0, ss, sos) ->
+  lenN bs < ss + sum_lens sos ->
+  load_metadata x509_ok bs = Err.
+Proof. exact BundleReadReject.rejects_out_of_file. Qed.
+Print Assumptions rejects_out_of_file.
+
+Theorem rejects_missing_responses_last : forall x509_ok (bs : bytes) v fb t0 ss sos,
+  load_header bs = Ok (v, fb, t0, ss, sos) ->
+  ~ (exists before rl, sos = before ++ [(sec_responses, rl)]) ->
+  load_metadata x509_ok bs = Err.
+Proof. exact BundleReadReject.rejects_missing_responses_last. Qed.
+Print Assumptions rejects_missing_responses_last.
+
+Theorem rejects_duplicate_section : forall f i n bs acc name r1,
+  i < n -> decode_text bs = Ok (name, r1) -> In name (map fst acc) ->
+  dec_section_lengths (S f) i n bs acc = Err.
+Proof. exact BundleReadReject.rejects_duplicate_section. Qed.
+Print Assumptions rejects_duplicate_section.
+
+Theorem accepted_sections_distinct : forall x509_ok (bs : bytes) v m,
+  lenN bs < two64 -> load_metadata x509_ok bs = Ok (v, m) ->
+  exists fb t0 ss sos, load_header bs = Ok (v, fb, t0, ss, sos) /\ NoDup (map fst sos).
+Proof. exact BundleReadReject.accepted_sections_distinct. Qed.
+Print Assumptions accepted_sections_distinct.
+
+Theorem rejects_wrapping_location_mr : forall rl ro o l,
+  rl < o + l -> make_relative rl ro o l = Err.
+Proof. exact BundleReadBase.make_relative_err. Qed.
+Print Assumptions rejects_wrapping_location_mr.
+
+Theorem rejects_wrapping_location : forall f n bs rl ro acc taint u r1 r2 o r3 l r4,
+  n <> 0 ->
+  decode_text bs = Ok (u, r1) -> decode_array_header r1 = Ok (2, r2) ->
+  decode_uint r2 = Ok (o, r3) -> decode_uint r3 = Ok (l, r4) ->
+  rl < o + l ->
+  parse_index (S f) BV2 n bs rl ro acc taint = Err.
+Proof. exact BundleReadReject.rejects_wrapping_location. Qed.
+Print Assumptions rejects_wrapping_location.
+
+(* ==== non-vacuity ================================================================================= *)
+Definition any_cert (_ : bytes) : bool := true.
+
+Definition x1 : bexchange :=
+  {| bx_url := s2b "https://a.example/"; bx_status := 200%Z;
+     bx_hdr := [(s2b "Content-Type", [s2b "text/plain"])]; bx_body := s2b "hello" |}.
+Definition x2 : bexchange :=
+  {| bx_url := s2b "https://a.example/b"; bx_status := 404%Z; bx_hdr := []; bx_body := s2b "nf" |}.
+Definition bd : bundle :=
+  {| b_ver := BV2; b_primary := Some (s2b "https://a.example/"); b_manifest := None;
+     b_sigs := None; b_exchanges := [x1; x2]; b_taint := false |}.
+
+(* written by the model's writer, read back: same exchanges *)
+Example ex_write_read :
+  exists w, b_write bd = Ok w /\ lenN w < two64 /\ b_read any_cert w = Ok bd.
+Proof. eexists. split; [vm_compute; reflexivity|]. split; vm_compute; reflexivity. Qed.
+
+(* hence the hypotheses of read_sound hold on a two-exchange file, and the
+   conclusion is there *)
+Example ex_extracts : exists w, b_write bd = Ok w /\ Extracts w bd.
+Proof.
+  destruct ex_write_read as [w [Hw [Hl Hr]]]. exists w. split; [exact Hw|].
+  exact (read_sound any_cert w bd Hl Hr).
+Qed.
+
+(* a b2 file from explicit sections (name, declared length, contents); cnt is
+   the count written in the section-lengths array head *)
+Definition assemble_ns (cnt ns : N) (secs : list (bytes * N * bytes)) : bytes :=
+  let tbl := enc_array_header cnt
+             ++ flat_map (fun s => enc_bytes_of Model.Cbor.TText (fst (fst s)) ++ enc_uint (snd (fst s)))
+                         secs in
+  let body := header_magic_bytes BV2 ++ enc_bytes tbl ++ enc_array_header ns
+              ++ flat_map snd secs in
+  body ++ enc_bytes (be 8 (w64 (lenN body + 9))).
+Definition assemble (cnt : N) (secs : list (bytes * N * bytes)) : bytes :=
+  assemble_ns cnt (lenN secs) secs.
+Definition sec (name : string) (c : bytes) : bytes * N * bytes := (s2b name, lenN c, c).
+
+Definition item1 : bytes := match encode_response x1 with Ok b => b | _ => [] end.
+Definition item2 : bytes := match encode_response x2 with Ok b => b | _ => [] end.
+Definition resp : bytes := enc_array_header 2 ++ item1 ++ item2.
+Definition idx_entry (u : bytes) (o l : N) : bytes :=
+  enc_bytes_of Model.Cbor.TText u ++ enc_array_header 2 ++ enc_uint o ++ enc_uint l.
+Definition idx : bytes :=
+  enc_map_header 2 ++ idx_entry (bx_url x1) 1 (lenN item1)
+                   ++ idx_entry (bx_url x2) (1 + lenN item1) (lenN item2).
+Definition good : bytes := assemble 4 [sec "index" idx; sec "responses" resp].
+Definition exchanges_of (r : R bundle) : option (list bexchange) :=
+  match r with Ok b => Some (b_exchanges b) | _ => None end.
+
+Example ex_good :
+  exchanges_of (b_read any_cert good) = Some [x1; x2] /\
+  load_header good = Ok (BV2, None, false, 38, [(sec_index, 48); (sec_responses, 65)]) /\
+  lenN good = 160.
+Proof. vm_compute. repeat split. Qed.
+
+(* an unknown section before the index: same exchanges (the offset of the
+   index is advanced by the unknown section's length) *)
+Example ex_unknown_section_skipped :
+  exchanges_of (b_read any_cert
+     (assemble 6 [sec "unknown" [1; 2; 3; 4; 5]; sec "index" idx; sec "responses" resp]))
+  = Some [x1; x2] /\
+  exchanges_of (b_read any_cert
+     (assemble 8 [sec "a" [9]; sec "index" idx; sec "zz" [7; 7; 7]; sec "responses" resp]))
+  = Some [x1; x2].
+Proof. vm_compute. split; reflexivity. Qed.
+
+(* responses section length corrupted: 2^63, 2^64-1, file size + 1, and one
+   byte past the end of the file are refused; up to the end of the file it is
+   accepted (the index locations are still inside the section) *)
+Definition with_resp_len (n : N) : bytes :=
+  assemble 4 [sec "index" idx; (s2b "responses", n, resp)].
+Example ex_rejects_section_length :
+  b_read any_cert (with_resp_len two63) = Err /\
+  b_read any_cert (with_resp_len (two64 - 1)) = Err /\
+  b_read any_cert (with_resp_len (lenN good + 1)) = Err /\
+  lenN (with_resp_len 75) = 160 /\ b_read any_cert (with_resp_len 75) = Err /\
+  exchanges_of (b_read any_cert (with_resp_len 74)) = Some [x1; x2].
+Proof. vm_compute. repeat split. Qed.
+
+(* the hypotheses of rejects_out_of_file on that input *)
+Example ex_rejects_out_of_file_hyps :
+  load_header (with_resp_len 75) = Ok (BV2, None, false, 38, [(sec_index, 48); (sec_responses, 75)])
+  /\ lenN (with_resp_len 75) < 38 + sum_lens [(sec_index, 48); (sec_responses, 75)].
+Proof. vm_compute. split; reflexivity. Qed.
+
+(* the same for the index section's declared length *)
+Example ex_rejects_index_length :
+  b_read any_cert (assemble 4 [(s2b "index", two64 - 8, idx); sec "responses" resp]) = Err /\
+  b_read any_cert (assemble 4 [(s2b "index", 200, idx); sec "responses" resp]) = Err.
+Proof. vm_compute. split; reflexivity. Qed.
+
+(* index location (2^64-8, 16): offset + length wraps to 8 in uint64 *)
+Definition idx_wrap : bytes := enc_map_header 1 ++ idx_entry (bx_url x1) (two64 - 8) 16.
+Example ex_rejects_wrapping_location :
+  w64 ((two64 - 8) + 16) = 8 /\
+  b_read any_cert (assemble 4 [sec "index" idx_wrap; sec "responses" resp]) = Err /\
+  (* the hypotheses of rejects_wrapping_location *)
+  (exists r1 r2 r3 r4,
+     decode_text (idx_entry (bx_url x1) (two64 - 8) 16) = Ok (bx_url x1, r1) /\
+     decode_array_header r1 = Ok (2, r2) /\ decode_uint r2 = Ok (two64 - 8, r3) /\
+     decode_uint r3 = Ok (16, r4) /\ lenN resp < (two64 - 8) + 16).
+Proof.
+  split; [vm_compute; reflexivity|]. split; [vm_compute; reflexivity|].
+  do 4 eexists. vm_compute. repeat split.
+Qed.
+
+(* locations just outside / just inside the responses section *)
+Example ex_location_boundary :
+  b_read any_cert (assemble 4 [sec "index" (enc_map_header 1 ++ idx_entry (bx_url x2) (1 + lenN item1) (lenN item2 + 1));
+                               sec "responses" resp]) = Err /\
+  exchanges_of (b_read any_cert
+     (assemble 4 [sec "index" (enc_map_header 1 ++ idx_entry (bx_url x2) (1 + lenN item1) (lenN item2));
+                  sec "responses" resp])) = Some [x2].
+Proof. vm_compute. split; reflexivity. Qed.
+
+(* duplicate section name; "responses" not last; no sections at all *)
+Example ex_rejects_table :
+  b_read any_cert (assemble 6 [sec "index" idx; sec "index" idx; sec "responses" resp]) = Err /\
+  b_read any_cert (assemble 4 [sec "responses" resp; sec "index" idx]) = Err /\
+  b_read any_cert (assemble 0 []) = Err /\
+  (* hypotheses of rejects_missing_responses_last *)
+  load_header (assemble 4 [sec "responses" resp; sec "index" idx])
+  = Ok (BV2, None, false, 38, [(sec_responses, 65); (sec_index, 48)]).
+Proof. vm_compute. repeat split. Qed.
+
+(* the head of the sections array disagrees with the section table *)
+Example ex_rejects_section_count :
+  b_read any_cert (assemble_ns 4 3 [sec "index" idx; sec "responses" resp]) = Err /\
+  b_read any_cert (assemble_ns 4 1 [sec "index" idx; sec "responses" resp]) = Err.
+Proof. vm_compute. split; reflexivity. Qed.
+
+Example ex_rejects_duplicate_hyps :
+  exists r1, decode_text (enc_bytes_of Model.Cbor.TText sec_index ++ [0]) = Ok (sec_index, r1)
+             /\ In sec_index (map fst [(sec_index, 48)]).
+Proof. eexists. split; [vm_compute; reflexivity|left; reflexivity]. Qed.
+
+(* load_response_sound: hypothesis satisfiable; what is refused *)
+Example ex_load_response :
+  load_response item1 = Ok (200%Z, [(s2b "Content-Type", [s2b "text/plain"])], s2b "hello") /\
+  load_response (item1 ++ [0]) = Err /\                      (* bytes after the body *)
+  load_response (removelast item1) = Err.                    (* truncated *)
+Proof. vm_compute. repeat split. Qed.
+
+Definition hdr_item (pairs : list (bytes * bytes)) (junk body : bytes) : bytes :=
+  [130] ++ enc_bytes (enc_map_header (lenN pairs)
+                      ++ flat_map (fun nv => enc_bytes (fst nv) ++ enc_bytes (snd nv)) pairs ++ junk)
+        ++ enc_bytes body.
+Example ex_load_response_rejects :
+  is_ok (load_response (hdr_item [(s2b ":status", s2b "200"); (s2b "a", s2b "1")] [] [1])) = true /\
+  (* same name twice; names differing only in what CanonicalHeaderKey folds *)
+  load_response (hdr_item [(s2b ":status", s2b "200"); (s2b "a", s2b "1"); (s2b "a", s2b "2")] [] [1]) = Err /\
+  load_response (hdr_item [(s2b ":status", s2b "200"); (s2b "A", s2b "1")] [] [1]) = Err /\
+  (* status: missing, twice, not three digits, other pseudo header *)
+  load_response (hdr_item [(s2b "a", s2b "1")] [] [1]) = Err /\
+  load_response (hdr_item [(s2b ":status", s2b "200"); (s2b ":status", s2b "200")] [] [1]) = Err /\
+  load_response (hdr_item [(s2b ":status", s2b "20")] [] [1]) = Err /\
+  load_response (hdr_item [(s2b ":status", s2b "2x0")] [] [1]) = Err /\
+  load_response (hdr_item [(s2b ":status", s2b "200"); (s2b ":path", s2b "/")] [] [1]) = Err /\
+  (* non-ASCII value *)
+  load_response (hdr_item [(s2b ":status", s2b "200"); (s2b "a", [200])] [] [1]) = Err.
+Proof. vm_compute. repeat split. Qed.
+
+(* ---- the documented leniencies, as accepted inputs ---------------------------------------------- *)
+Example ex_leniencies :
+  (* bytes after the map inside the header string *)
+  load_response (hdr_item [(s2b ":status", s2b "200")] [255; 255] [1]) = Ok (200%Z, [], [1]) /\
+  (* odd count in the section-lengths array head *)
+  exchanges_of (b_read any_cert (assemble 3 [sec "index" idx; sec "responses" resp])) = Some [x1; x2] /\
+  (* bytes after the entries inside the index section *)
+  exchanges_of (b_read any_cert (assemble 4 [sec "index" (idx ++ [255]); sec "responses" resp]))
+  = Some [x1; x2] /\
+  (* non-shortest head for a location *)
+  exchanges_of (b_read any_cert
+     (assemble 4 [sec "index" (enc_map_header 1 ++ enc_bytes_of Model.Cbor.TText (bx_url x1)
+                               ++ enc_array_header 2 ++ [27; 0; 0; 0; 0; 0; 0; 0; 1] ++ enc_uint (lenN item1));
+                  sec "responses" resp])) = Some [x1].
+Proof. vm_compute. repeat split. Qed.
+
+(* b1: primary URL in the header, variants-value in the index entries *)
+Example ex_b1_roundtrip :
+  let b := {| b_ver := BV1; b_primary := Some (s2b "https://a.example/"); b_manifest := None;
+              b_sigs := None; b_exchanges := [x1; x2]; b_taint := false |} in
+  exists w, b_write b = Ok w /\ b_read any_cert w = Ok b /\ Extracts w b.
+Proof.
+  cbv zeta. eexists. split; [vm_compute; reflexivity|].
+  split; [vm_compute; reflexivity|].
+  apply (read_sound any_cert); vm_compute; reflexivity.
+Qed.
+
+(* ---- hypotheses of the remaining implications are satisfiable ------------------------------------ *)
+Example ex_in_bounds_hyps :
+  exists v m, load_metadata any_cert good = Ok (v, m) /\ lenN good < two64 /\
+              map (fun l => (l_off l, l_len l)) (m_locs m) = [(87, 46); (133, 18)] /\
+              Forall (in_bounds (38 + 48) 65) (m_locs m).
+Proof.
+  eexists. eexists. split; [vm_compute; reflexivity|]. split; [vm_compute; reflexivity|].
+  split; [vm_compute; reflexivity|].
+  repeat constructor; cbn [l_off l_len]; lia.
+Qed.
+
+Example ex_make_relative :
+  make_relative 65 86 1 46 = Ok (87, 46) /\ 86 + 65 <= 160 /\ 160 < two64 /\
+  make_relative 65 86 21 45 = Err /\ make_relative 65 86 (two64 - 8) 16 = Err.
+Proof. vm_compute. repeat split; discriminate. Qed.
+
+Example ex_offset_invariant_hyps :
+  ~ In sec_responses (map fst [(s2b "unknown", 5); (sec_index, 48)]) /\
+  38 + sum_lens [(s2b "unknown", 5); (sec_index, 48)] < two64.
+Proof.
+  split; [|vm_compute; reflexivity].
+  cbn [map fst In]. intros [H|[H|[]]]; vm_compute in H; discriminate.
+Qed.
+
+Example ex_slice_in_range_hyps :
+  known_section sec_index = true /\ bytes_eqb sec_index sec_responses = false /\
+  38 + 48 <= lenN good /\ lenN good < two64.
+Proof. vm_compute. repeat split; discriminate. Qed.
+
+Example ex_find_section :
+  find_section [(s2b "unknown", 5); (sec_index, 48); (sec_responses, 65)] sec_responses
+  = Some (65, 53) /\
+  section_span [(s2b "unknown", 5); (sec_index, 48); (sec_responses, 65)] sec_responses
+  = Some (53, 65) /\
+  sections_fit [(sec_index, 48); (sec_responses, 65)] 38 160 = true /\
+  sections_fit [(sec_index, 48); (sec_responses, two64 - 1)] 38 160 = false /\
+  sections_fit [(sec_index, two64 - 1); (sec_responses, two64 - 1)] 38 160 = false.
+Proof. vm_compute. repeat split. Qed.
